@@ -166,21 +166,29 @@ class chain(AsyncIterator[T]):
     @staticmethod
     async def _chain_iterator(
         any_iterables: AnyIterable[AnyIterable[T]],
+        owned_iterators: "Tuple[ACloseable, ...]" = (),
     ) -> AsyncGenerator[T, None]:
-        async with ScopedIter(any_iterables) as iterables:
-            async for iterable in iterables:
-                async with ScopedIter(iterable) as iterator:
-                    async for item in iterator:
-                        yield item
+        try:
+            async with ScopedIter(any_iterables) as iterables:
+                async for iterable in iterables:
+                    async with ScopedIter(iterable) as iterator:
+                        async for item in iterator:
+                            yield item
+        finally:
+            # also release the iterators we did not get to, e.g. if an earlier one failed
+            for owned_iterator in owned_iterators:
+                await owned_iterator.aclose()
 
     def __init__(
         self, *iterables: AnyIterable[T], _iterables: AnyIterable[AnyIterable[T]] = ()
     ):
-        self._iterator = self._chain_iterator(iterables or _iterables)
         self._owned_iterators = tuple(
             iterable  # type: ignore[misc]
             for iterable in iterables
             if isinstance(iterable, AsyncIterator) and isinstance(iterable, ACloseable)
+        )
+        self._iterator = self._chain_iterator(
+            iterables or _iterables, self._owned_iterators
         )
 
     @classmethod
